@@ -1,48 +1,23 @@
 package mast
 
-// C01: map semantics against the reference model, bounded histories from the empty tree.
+// C01: map semantics against the reference model, bounded histories from the
+// empty tree; after every operation the observation battery (Size, full Iter,
+// Get of one symbolic probe key of symbolic layer) is compared with the model.
 func HarnessC01a() {
 	K := verifBound("K")
 	bf := uint(verifBound("BF"))
 	st := newVStore("s1")
-	cfg := symConfig(st, nil)
+	var cache NodeCache
+	if verifBound("CACHE") == 1 {
+		cache = &vCache{}
+	}
+	cfg := symConfig(st, cache)
 	cur, err := NewRoot(&CreateRemoteOptions{BranchFactor: bf}).LoadMast(vctx, cfg)
-	verifAssert("new.err", err == nil)
+	verifAssert("C01.new.err", err == nil)
 	md := &symModel{}
 	probe := symKey{verifNondetU64("probe")}
 	for i := 0; i < K; i++ {
-		switch verifChoose("op", 5) {
-		case 0:
-			k, v := verifNondetU64("k"), verifNondetU64("v")
-			err := cur.Insert(vctx, symKey{k}, v)
-			verifAssert("insert.err", err == nil)
-			md.put(k, v)
-		case 1:
-			k, v := verifNondetU64("k"), verifNondetU64("v")
-			f, mv := md.lookup(k)
-			expectOK := verifAnd(f, mv == v)
-			before := md
-			err := cur.Delete(vctx, symKey{k}, v)
-			verifAssert("delete.result", (err == nil) == expectOK)
-			if err == nil {
-				md = before.clone()
-				md.del(k)
-			}
-		case 2:
-			c, err := cur.Clone(vctx)
-			verifAssert("clone.err", err == nil)
-			cur = &c
-		case 3:
-			_, err := cur.MakeRoot(vctx)
-			verifAssert("makeroot.err", err == nil)
-		case 4:
-			r, err := cur.MakeRoot(vctx)
-			verifAssert("makeroot.err", err == nil)
-			if err == nil {
-				cur, err = r.LoadMast(vctx, cfg)
-				verifAssert("load.err", err == nil)
-			}
-		}
+		cur, md, _ = applyOps("h", cur, md, cfg, 1, 5)
 		checkTree("step", cur, md, probe)
 	}
 }
